@@ -23,9 +23,32 @@ def _get_driver(name):
     return _DRIVERS[name]
 
 
+EPISODE_TIMEOUT_S = int(os.environ.get("VERIF_EPISODE_TIMEOUT", "300"))
+
+
+class EpisodeTimeout(BaseException):
+    pass
+
+
 def _run_one(arg):
+    """One episode on the real code, under a watchdog: an episode normally takes well under a second; one that
+    does not return within EPISODE_TIMEOUT_S is cut off and recorded as a single 'timeout' event."""
+    import signal
+
     i, spec = arg
-    return _get_driver(spec["driver"]).run_episode(spec, uid=f"E{i}")
+
+    def on_alarm(signum, frame):
+        raise EpisodeTimeout()
+
+    old = signal.signal(signal.SIGALRM, on_alarm)
+    signal.alarm(EPISODE_TIMEOUT_S)
+    try:
+        return _get_driver(spec["driver"]).run_episode(spec, uid=f"E{i}")
+    except EpisodeTimeout:
+        return [{"k": "timeout", "limit_s": EPISODE_TIMEOUT_S, "driver": spec["driver"]}]
+    finally:
+        signal.alarm(0)
+        signal.signal(signal.SIGALRM, old)
 
 
 def run_specs(specs, procs=None):
